@@ -9,6 +9,34 @@ HERE = os.path.dirname(os.path.dirname(os.path.abspath(__file__)))
 TECH = 'Lean 4 theorems over an executable model + checked correspondence (differential, line protocol) with /repo'
 
 CLAIMED = {
+    'C02': {
+        'text': 'Proof: C02_parse_render (the reader inverts the solver layout: both header layouts, every variable list, component counts, '
+                'wrap widths and ids), C02_split_point (the walk-back lands exactly at the nodal/elemental boundary), C02_columns, '
+                'C02_rebinding (per-type re-binding by id, uniform and mixed), C02_steps / C02_steps_latest / C02_step_of_name (numeric '
+                'step order, latest step) and C02_timeseries_is_stack / C02_stack_spec are kernel-checked over token-level models; tied to '
+                'the tree by the generated header constants (decide) and by model-rendered .res files read with the real reader.',
+        'note': 'token-level theorems; character-level lexer tied by correspondence; solver .res layout is a hand spec; >= 1 nodal '
+                'variable; unreferenced nodes are a separately labelled stream',
+        'technique': 'Lean 4 proof (parse-render inversion, chunk/unchunk with constant stride, sorting lemmas) + differential correspondence on rendered result files',
+        'design': '4/C02',
+    },
+    'C04': {
+        'text': 'Proof: C04_offsets (both header line indices computed by read_headers hit the written blocks, the two independent '
+                'elemental offset formulas agree), C04_roundtrip(_printed) (read (write m) = expected m for all node/element/variable '
+                'counts, parametric in print/parse), C04_tet2_first_order, C04_nothing_else_changes, C04_bound_to_same_ids are '
+                'kernel-checked; tied to the tree byte for byte on the written file and by float bit patterns on the read side.',
+        'note': 'parse(print v) = v for Python float repr is trusted; token-level model; NaN compared as one token',
+        'technique': 'Lean 4 proof (positional reader over segment lemmas) + byte-level differential correspondence of the UCD file and bit-pattern oracle',
+        'design': '4/C04',
+    },
+    'C06': {
+        'text': 'Proof: C06_index_translation (points in storage order, one cell row per element, ids[row[l]] = (vtkOrder conn)[l]), '
+                'C06_export_succeeds, C06_point_data, C06_type_table (generated tables, decide), C06_tet2_perms_inverse, C06_tet2_edges '
+                'are kernel-checked; tied to the tree by reading the real write(\'vtk\') output back with meshio and comparing with the model.',
+        'note': 'the VTK file encoding is meshio\'s (the independent reader the property names); VTK cell numbers and mid-edge orders are hand specs',
+        'technique': 'Lean 4 proof (id->position translation lemmas, table obligations by decide) + differential correspondence through meshio',
+        'design': '4/C06',
+    },
     'C05': {
         'text': 'Proof: over the directory state machine of save / read_directory (seven cache files; contents absent / torn / written '
                 'from object t) C05_crash_inv, C05_history_inv and C05_crash_safe show that for every history of reads, saves and '
@@ -42,6 +70,16 @@ CLAIMED = {
         'technique': 'Lean 4 proof (state-machine invariant by induction over operation histories) + differential correspondence of histories',
         'design': '4/C08',
     },
+    'C09': {
+        'text': 'Proof: for all eight sub-mesh operations (cut by element ids / type / positions / node ids, remove_useless_nodes, '
+                'to_first_order, to_surface, to_facets) C09_self_contained_<op>, C09_exact_selection_<op>, C09_values_attached_<op>, '
+                'plus C09_sweep_correct / C09_sweep_error_iff for the two-pointer sweep, are kernel-checked over the transcribed model '
+                '(27 theorems, explicit WF / Aligned hypotheses); tied to the tree by differential runs on seeded meshes with unsorted / '
+                'sparse ids, unreferenced nodes and rank 1-3 variables.',
+        'note': 'nodal variables aligned with the mesh order (misaligned variables are a separately labelled stream); pandas/numpy semantics by correspondence only',
+        'technique': 'Lean 4 proof (id-keyed lookup lemmas, sweep correctness) + differential correspondence of result meshes as id-keyed maps',
+        'design': '4/C09',
+    },
     'C13': {
         'text': 'Proof: C13_incidence(_order1), C13_adjacency_elem/node, C13_nhop_reach (n-hop = walks of length 1..n, by induction '
                 'over Boolean matrix powers, with a refinement lemma down to the materialised arrays the driver executes), '
@@ -52,6 +90,24 @@ CLAIMED = {
                 'edge-gradient matrix / column order of e2v (scipy COO order) compared as sets; isolated vertices are outside e2v\'s theorem',
         'technique': 'Lean 4 proof (spec lemmas + induction on matrix powers + refinement) + differential correspondence of sparse matrices',
         'design': '4/C13',
+    },
+    'C15': {
+        'text': 'Proof (any field): C15_const_zero (every variant of the spatial-gradient operator has zero row sums), C15_affine_exact '
+                '(with the moment-matrix correction the gradient of a.x+b is a at every vertex, interior or boundary, under IsUnit det M_i), '
+                'C15_convenience (convenience functions = stack of the explicit matrices) over the transcription of '
+                'calculate_spatial_gradient_adjacency_matrices; tied to the tree by exact-rational comparison of all three sparse matrices.',
+        'note': 'kernel weights (exp / gauss x volume) are captured from the real call and are inputs of the model; inv / sqrt / float accuracy are runtime (scale-relative tolerance)',
+        'technique': 'Lean 4 proof (Mathlib Matrix algebra over a field) + exact-rational differential correspondence of sparse operators',
+        'design': '4/C15',
+    },
+    'C17': {
+        'text': 'Proof: C17_arr_mat_inverse (all 720 component orders x both shear conventions over the generated index tables, symmetry), '
+                'C17_principal / C17_principal_array (descending, orthonormal, right-handed, rebuilds the tensor, under the eigh post-condition), '
+                'C17_invert_strain (twice = identity, 1+lambda != 0 derived), C17_lte_roundtrip, C17_align_nnz are kernel-checked; tied to the '
+                'tree by the generated tables and exact-rational evaluation on captured eigh outputs.',
+        'note': 'numpy.linalg.eigh post-condition is an explicit hypothesis checked numerically per call; no-mutation clause is an aliasing fact checked by snapshot only',
+        'technique': 'Lean 4 proof (index-table decide + Mathlib matrix identities) + exact-rational correspondence + inverse-law oracle',
+        'design': '4/C17',
     },
     'C19': {
         'text': 'Proof (partial, by the property\'s own standard): over the cache model (one LRU per cached method with the generated '
